@@ -90,6 +90,15 @@ def _script(store, x, y, fx, fy, inp, errs):
         errs.append("deleted identifier still retrievable")
     except Exception:  # noqa: BLE001
         pass
+    # bind x to the shared object again (allowed: it was deleted), then delete it once more
+    store.tag_object(x, hashlib.sha256(A).hexdigest())
+    check_y("re-tagging x to the shared object")
+    s = store.retrieve_object(x)
+    if s.read() != A:
+        errs.append("re-tagged identifier returns other bytes")
+    s.close()
+    store.delete_object(x)
+    check_y("second delete_object(x)")
     store.store_object(x, inp["B"])
     check_y("re-store of x")
     s = store.retrieve_object(x)
